@@ -34,6 +34,27 @@ def run_case(ld, prog, aspects, prefix_hook=None, watchdog_s=8):
                 finite = not any(o[0] == 'cycle' for o in prog['ops'])
                 limit = 24
             o = ob.observe(ds, limit, aspects=aspects, finite=finite)
+            if 'scramble' in aspects and status == 'ok' and m.finite:
+                # a fresh build whose *first* accesses are out of order (point
+                # accesses from both ends, by key where offered), then a plain
+                # iteration: earlier accesses must not change what iteration
+                # yields (caches filled out of order, memoised keys, ...)
+                ds2 = programs.build(ld, prog)
+                n = m.n
+                order = []
+                lo_, hi_ = 0, n - 1
+                while lo_ <= hi_:
+                    order.append(hi_)
+                    if lo_ != hi_:
+                        order.append(lo_ - n)
+                    lo_, hi_ = lo_ + 1, hi_ - 1
+                pre = []
+                if m.indexable and m.sized:
+                    pre = [ob.guarded(lambda: ds2[i]) for i in order]
+                if m.bykey and m.labelstate == 'unique':
+                    pre += [ob.guarded(lambda: ds2[k]) for k in reversed(m.labels)]
+                ob.guarded(lambda: tuple(ds2.keys()))
+                o['scramble'] = (order, pre, ob.take(ds2, limit))
             return status, m, o
     except ob.Watchdog:
         return 'watchdog', m, None
@@ -84,6 +105,21 @@ def judge_c01(prog, status, m, o, res):
             res.violation(kind, case, {'first': it1, name: o.get(name)},
                           sig={'last_op': lo})
             return True
+    if 'scramble' in o:
+        res.count('iterations_after_scrambled_access_compared')
+        order, pre, it3 = o['scramble']
+        if it3 != it1:
+            res.violation('iteration-after-out-of-order-access-differs', case,
+                          {'first_accesses': order, 'then_iterated': it3, 'want': it1},
+                          sig={'last_op': lo})
+            return True
+        if m.indexable and m.sized:
+            wantpre = [want[0][i] for i in order]
+            if pre[:len(order)] != wantpre:
+                res.violation('out-of-order-access-differs', case,
+                              {'indices': order, 'got': pre[:len(order)], 'want': wantpre},
+                              sig={'last_op': lo})
+                return True
     if 'partial' in o:
         res.count('partial_then_full_compared')
         if o['partial'][1] != it1:
